@@ -490,9 +490,27 @@ def relabel_groups(ctx):
     return groups
 
 
+def back_groups(ctx):
+    """triples whose public key was built (by GenBack.tla) for a RELAXED reading of the leaf-number range check of
+    Algorithm 6a; RFC 8554 rejects them, a verifier with that reading accepts them"""
+    groups = []
+    for alg in (ALGS if ctx["tier"] != "quick" else ("sha256_n16", "shake256_n24")):
+        outp = os.path.join(ctx["workdir"], "genback_%s.ndjson" % alg)
+        rc, out, st = run_tlc("GenBack", "GenBack.cfg", os.path.join(ctx["workdir"], "meta-genback-" + alg), env={"GEN_ALG": alg, "GEN_OUT": outp}, timeout=900, xmx="4g")
+        if rc != 0 or "Error" in out or not os.path.exists(outp):
+            raise ToolError("GenBack failed: " + out[-1500:])
+        cmds = []
+        for line in open(outp):
+            t = json.loads(line)
+            cmds.append(cmd_verify(alg, t["msg"], t["sig"], t["pk"], meta={"class": "adversarial_key_for_relaxed_leaf_range_check", "reading": t["reading"], "q": t["q"]}))
+        groups.append({"name": "c02/back/%s" % alg, "cmds": cmds, "cost": 1.0})
+    return groups
+
+
 def c02_phases(ctx):
     groups = mutation_groups(ctx, "c02")
     groups += relabel_groups(ctx)
+    groups += back_groups(ctx)
     groups += sym_groups(ctx)
     if ctx["tier"] != "quick":
         groups += every_byte_groups(ctx)
